@@ -8,9 +8,15 @@
 // by 0..200 s. The initial clock sits near a 64 s unit boundary or near the
 // 16-bit wrap of the retire timestamp. At the end the vector is destroyed.
 //
-// mode 2 ("stalled thread", not part of the default mix): clock jumps are
-// ordinary operations of the worker threads, so a jump can fall between a
-// retiring thread's clock read and the publication of its retire node.
+// Two more modes, NOT part of the default mix (whether what they show is a
+// violation of C04 is decided from concrete replays, DESIGN.md §3 C04 note):
+// mode 2 ("stalled retirer"): one thread jumps the clock by more than a unit
+//   exactly while another thread is between its successful table CAS and the
+//   publication of its retire node, and while nobody else is inside a vector
+//   operation; a third thread grows and calls gc() afterwards.
+// mode 3 ("stalled anywhere"): clock jumps are ordinary operations of the
+//   worker threads, so any thread can be stalled anywhere inside any operation
+//   (includes readers that sit on a table pointer for longer than 64 s).
 #include <babylon/concurrent/vector.h>
 
 #include <stdlib.h>
@@ -63,8 +69,8 @@ struct Elem {
   Elem& operator=(uint64_t v);
 };
 
-enum Kind { K_ENSURE, K_RESERVE, K_INDEX, K_SNAPSHOT, K_RSNAPSHOT, K_SNAP_USE, K_FILL_N, K_COPY_N, K_FOR_EACH, K_CFOR_EACH, K_GC, K_SIZE, K_RECHECK, K_JUMP };
-const char* const kNames[] = {"ensure", "reserve", "index", "snapshot", "reserved_snapshot", "snapshot_use", "fill_n", "copy_n", "for_each", "const_for_each", "gc", "size", "recheck", "clock_jump", nullptr};
+enum Kind { K_ENSURE, K_RESERVE, K_INDEX, K_SNAPSHOT, K_RSNAPSHOT, K_SNAP_USE, K_FILL_N, K_COPY_N, K_FOR_EACH, K_CFOR_EACH, K_GC, K_SIZE, K_RECHECK, K_JUMP, K_WAIT_JUMP };
+const char* const kNames[] = {"ensure", "reserve", "index", "snapshot", "reserved_snapshot", "snapshot_use", "fill_n", "copy_n", "for_each", "const_for_each", "gc", "size", "recheck", "clock_jump", "wait_jump", nullptr};
 
 struct ElemInfo { uint8_t state = 0; long index = -1; uint32_t observed = 0; int ctor_tid = -1; };
 struct TabInfo { int64_t published = -1, superseded = -1, freed = -1; };
@@ -88,6 +94,11 @@ struct State {
   PerThread pt[8];
   uint64_t seq = 0;
   MVec<Elem*>* touch[64];  // per simulated thread: operator= recorder armed
+  // mode 2 choreography
+  int window_tid = -1;       // simulated thread that won the table CAS and has not yet published its retire node
+  bool jumped = false;
+  bool in_vec_op[8];         // plan thread is inside a vector operation
+  int tid_of_pt[8];          // simulated thread id of a plan thread
 };
 State* S;
 
@@ -174,7 +185,13 @@ void on_table_change(void*, const void*, uint64_t oldv, uint64_t newv) {
     if (o.superseded >= 0) fail("api", "block-table", "block table %#llx superseded twice", (unsigned long long)oldv);
     o.superseded = now;
   }
+  s.window_tid = sim::tid();
+  tracef("block table %#llx superseded by %#llx (%zu blocks)", (unsigned long long)oldv, (unsigned long long)newv, *(size_t*)newv);
   probe("table_superseded");
+}
+void on_head_change(void*, const void*, uint64_t oldv, uint64_t newv) {
+  tracef("retire list head %#llx -> %#llx", (unsigned long long)oldv, (unsigned long long)newv);
+  if (S->window_tid == sim::tid()) S->window_tid = -1;
 }
 void on_free(void*, void* p, size_t) {
   State& s = *S;
@@ -183,6 +200,7 @@ void on_free(void*, void* p, size_t) {
   TabInfo& t = it->second;
   int64_t now = now_ns();
   t.freed = now;
+  tracef("block table %p freed, superseded %lld ns ago", p, (long long)(t.superseded < 0 ? -1 : now - t.superseded));
   if (s.destroying) return;
   if (t.superseded < 0) fail("early-reclaim", "current-table", "the current block table %p was freed by T%d while the vector is alive", p, sim::tid());
   int64_t d = now - t.superseded;
@@ -226,6 +244,12 @@ struct Runner {
   }
 
   void op(int pt, const Op& o) {
+    if (o.kind == K_JUMP || o.kind == K_WAIT_JUMP) { op2(pt, o); return; }
+    S->in_vec_op[pt & 7] = true;
+    op2(pt, o);
+    S->in_vec_op[pt & 7] = false;
+  }
+  void op2(int pt, const Op& o) {
     Vec& vec = *v;
     const Vec& cvec = *v;
     PerThread& me = S->pt[pt & 7];
@@ -349,10 +373,30 @@ struct Runner {
         probe("kept_references_rechecked", me.ptrs.size() ? 1 : 0);
         break;
       }
-      case K_JUMP:
-        // only generated in mode 2 (stalled-thread scenario)
-        sim::clock_jump((int64_t)std::max<int64_t>(0, std::min<int64_t>(o.a, 400)) * SEC);
-        probe("clock_jump_inside_round");
+      case K_JUMP: {
+        // only generated in modes 2 and 3
+        int64_t ns = (int64_t)std::max<int64_t>(0, std::min<int64_t>(o.a, 400)) * SEC;
+        if (o.b == 0) {  // mode 3: wherever the other threads happen to be
+          sim::clock_jump(ns);
+          probe("clock_jump_inside_round");
+          break;
+        }
+        // mode 2: only while another thread is between its table CAS and the
+        // publication of its retire node and nobody else is inside an operation
+        for (int i = 0; i < 600; i++) {
+          if (S->window_tid >= 0) {
+            bool others_out = true;
+            for (int q = 1; q < 8; q++)
+              if (q != (pt & 7) && S->in_vec_op[q] && S->tid_of_pt[q] != S->window_tid) others_out = false;
+            if (others_out) { sim::clock_jump(ns); probe("clock_jump_inside_retire_window"); break; }
+          }
+          sched_yield();
+        }
+        S->jumped = true;
+        break;
+      }
+      case K_WAIT_JUMP:
+        while (!S->jumped) sim::sleep_ns(1000);
         break;
     }
   }
@@ -384,6 +428,7 @@ struct Runner {
     if (v->block_size() != s.bs) fail("api", "block_size", "block_size() is %zu, expected %zu", v->block_size(), s.bs);
     sim::drain();
     sim::watch(&v->_block_table, sizeof(void*), on_table_change, nullptr);
+    sim::watch(&v->_retire_list._head, sizeof(uint64_t), on_head_change, nullptr);
     // The plan threads live for the whole run; rounds are separated by a
     // mutex/condvar barrier (a real synchronisation, as a client would use).
     // Between rounds nobody is inside an operation and main jumps the clock.
@@ -396,6 +441,7 @@ struct Runner {
       if (p.threads[t].empty()) continue;
       nworkers++;
       th.emplace_back([this, pp, t, rounds, &mu, &cv, &open_round, &arrived]() {
+        S->tid_of_pt[t & 7] = sim::tid();
         for (int r = 0; r < rounds; r++) {
           { std::unique_lock<std::mutex> l(mu); cv.wait(l, [&] { return open_round > r; }); }
           S->pt[t & 7].known_size = std::max(S->pt[t & 7].known_size, S->max_size_at_round_start);
@@ -479,8 +525,9 @@ struct Runner {
 };
 
 void gen(Rng& r, Plan& p, const GenParams& gp) {
-  bool stalled = gp.mode == 2;
+  bool stalled = gp.mode == 3, directed = gp.mode == 2;
   gen_common(r, p, SB_HALF, false, 800);
+  if (directed) p.cfg["policy"] = r.chance(2, 3) ? 0 : 1;  // the jumper polls with sched_yield: no PCT/starve
   static const int64_t bss[] = {0, 0, 1, 2, 4};
   int64_t B = bss[r.below(5)];
   static const int64_t hints[] = {1, 2, 4, 7};
@@ -490,8 +537,8 @@ void gen(Rng& r, Plan& p, const GenParams& gp) {
   p.cfg["ctor_cb"] = r.chance(1, 4);
   size_t bs = (size_t)B;
   if (B == 0) { bs = 1; while (bs < (size_t)hint) bs <<= 1; }
-  int rounds = stalled ? 1 : (int)r.range(1, 3);
-  if (!stalled && r.chance(1, 2)) rounds = 3;
+  int rounds = (stalled || directed) ? 1 : (int)r.range(1, 3);
+  if (!stalled && !directed && r.chance(1, 2)) rounds = 3;
   p.cfg["rounds"] = rounds;
   static const int64_t js[] = {0, 1, 30, 63, 64, 65, 100, 127, 128, 129, 130, 200};
   for (int i = 1; i < 3; i++) {
@@ -525,8 +572,31 @@ void gen(Rng& r, Plan& p, const GenParams& gp) {
   }
   p.cfg["t0"] = t0;
   int nthreads = (int)r.range(2, 4);
-  p.threads.resize((size_t)nthreads + 1);
   int opid = 0;
+  if (directed) {
+    // thread 1 (and 4): growers that may be caught in their retire window;
+    // thread 2: the jumper; thread 3: waits for the jump, then grows and collects
+    nthreads = (int)r.range(3, 4);
+    p.threads.resize((size_t)nthreads + 1);
+    auto add = [&](int t, int kind, int64_t a, int64_t b) { Op o; o.kind = kind; o.a = a; o.b = b; o.c = 0; o.id = opid++; p.threads[(size_t)t].push_back(o); };
+    for (int t = 1; t <= nthreads; t++) {
+      if (t == 2) { add(t, K_JUMP, (int64_t)r.range(65, 200), 1); continue; }
+      if (t == 3) add(t, K_WAIT_JUMP, 0, 0);
+      int nops = (int)r.range(3, 6);
+      size_t top = (t == 3 ? 8 : 0) * bs;
+      for (int i = 0; i < nops; i++) {
+        int k = (int)r.below(10);
+        if (k < 5 || i == 0) { top += bs * (size_t)r.range(1, 2); static const int gk[] = {K_ENSURE, K_ENSURE, K_RESERVE, K_RSNAPSHOT, K_FILL_N, K_FOR_EACH}; int kind = gk[r.below(6)]; add(t, kind, (int64_t)top - (kind == K_FILL_N || kind == K_FOR_EACH ? 2 : 0) - (kind == K_ENSURE ? 1 : 0), 2); }
+        else if (k < 7) add(t, K_GC, 0, 0);
+        else if (k < 8) add(t, K_SNAPSHOT, (int64_t)r.below(top + 1), 0);
+        else if (k < 9) add(t, K_SNAP_USE, (int64_t)r.below(8), (int64_t)r.below(top + 1));
+        else add(t, K_INDEX, (int64_t)r.below(top + 1), (int64_t)r.below(2));
+      }
+      if (t == 3) add(t, K_GC, 0, 0);
+    }
+    return;
+  }
+  p.threads.resize((size_t)nthreads + 1);
   for (int t = 1; t <= nthreads; t++) {
     int nops = (int)r.range(3, gp.thorough ? 10 : 8);
     MVec<int> rs;
@@ -560,6 +630,8 @@ void run(const Plan& p) {
   S = new (malloc(sizeof(State))) State();
   for (auto& a : S->addr_of) a = nullptr;
   for (auto& t : S->touch) t = nullptr;
+  for (auto& x : S->in_vec_op) x = false;
+  for (auto& x : S->tid_of_pt) x = -1;
   switch (p.get("bs_static", 0)) {
     case 1: { Runner<1> r; r.run(p); break; }
     case 2: { Runner<2> r; r.run(p); break; }
